@@ -11,6 +11,10 @@ import (
 // Cargo strictly follows SemVer 2.0: MAJOR.MINOR.PATCH[-PRERELEASE][+BUILD]
 var versionPattern = regexp.MustCompile(`^(\d+)\.(\d+)\.(\d+)(?:-([0-9A-Za-z-]+(?:\.[0-9A-Za-z-]+)*))?(?:\+([0-9A-Za-z-]+(?:\.[0-9A-Za-z-]+)*))?$`)
 
+// numericIdentifier matches pre-release identifiers that SemVer treats as numbers: digits only.
+// Identifiers such as "-5" are alphanumeric although strconv.Atoi would accept them.
+var numericIdentifier = regexp.MustCompile(`^[0-9]+$`)
+
 // Version represents a Cargo (Rust) package version following SemVer 2.0
 type Version struct {
 	major      int
@@ -149,6 +153,9 @@ func comparePrereleaseIdentifiers(a, b string) int {
 
 // tryParseInt attempts to parse a string as an integer
 func tryParseInt(s string) (int, bool) {
+	if !numericIdentifier.MatchString(s) {
+		return 0, false
+	}
 	num, err := strconv.Atoi(s)
 	return num, err == nil
 }
